@@ -1235,6 +1235,12 @@ class Var:
         >>> scale.update().log_prob
         0.0
         """
+        if self.model:
+            # checked first, nothing of the model may be touched
+            raise RuntimeError(
+                f"{repr(self)} is part of a model, cannot be transformed"
+            )
+
         if self.weak:
             raise RuntimeError(f"{repr(self)} is weak")
 
